@@ -37,15 +37,15 @@ RULE = (
     "inputs."
 )
 STRATA = {
-    "fasta": (3600, 150000),
-    "fastq": (3600, 150000),
-    "genbank": (5000, 200000),
-    "gff": (3600, 150000),
-    "edit_fasta": (2400, 90000),
-    "edit_fastq": (2000, 80000),
-    "edit_genbank": (2400, 90000),
-    "edit_gff": (2400, 90000),
-    "general": (400, 8000),
+    "fasta": (7000, 150000),
+    "fastq": (7000, 150000),
+    "genbank": (10000, 200000),
+    "gff": (7000, 150000),
+    "edit_fasta": (4500, 90000),
+    "edit_fastq": (4000, 80000),
+    "edit_genbank": (4500, 90000),
+    "edit_gff": (4000, 80000),
+    "general": (800, 10000),
 }
 REQUIRED_ORACLES = [
     "fasta_roundtrip", "fasta_convert_roundtrip", "fasta_iter_roundtrip",
@@ -204,8 +204,8 @@ def gen_text(rng, n, specials="", p_special=0.15, p_space=0.12, p_uni=0.03, excl
         ri, ki = r[i], int(k[i])
         if specials and ri < p_special:
             c = specials[ki % len(specials)]
-        elif ri < p_special + p_space and 0 < i < n - 1:
-            c = " "
+        elif ri < p_special + p_space:
+            c = " " if 0 < i < n - 1 else _ALNUM[ki % len(_ALNUM)]
         elif ri < p_special + p_space + p_uni:
             c = _UNI[ki % len(_UNI)]
         elif ri < 0.62 or not punct:
@@ -307,23 +307,25 @@ def case_fasta(rng, ctx):
     cpl = rint(rng, 1, 100) if rng.random() < 0.85 else pick(rng, [1, 2, 60, 80, 100])
     n = pick(rng, [0, 1, 1, 2, 2, 3, 4, 6])
     mode = pick(rng, ["raw", "convert", "convert", "iter"])
-    entries = fasta_entries(ctx, rng, n, cpl, ["nuc", "amb", "prot", "raw"] if mode != "convert" else ["nuc", "amb", "prot"])
+    blanks = ctx.allowed("header_surrounding_blanks") and rng.random() < 0.05
+    entries = fasta_entries(ctx, rng, n, cpl, ["nuc", "amb", "prot", "raw"] if mode != "convert" else ["nuc", "amb", "prot"], blanks)
     ctx.log("fasta", mode, cpl, [[h, k, s] for h, k, s in entries])
     ctx.op("fasta_" + mode)
     ctx.mark_nontrivial(any(len(s) > cpl or special_header(h) for h, _, s in entries))
     FastaFile = B.fasta.FastaFile
-    expected = [(h, s) for h, _, s in entries]
+    given = [(h, s) for h, _, s in entries]
+    expected = [(h.strip(), s) for h, s in given]      # the API strips surrounding blanks of headers
     seqs = None
     if mode == "iter":
         buf = StringIO()
-        items = expected if rng.random() < 0.5 else iter(expected)
+        items = given if rng.random() < 0.5 else iter(given)
         FastaFile.write_iter(buf, items, chars_per_line=cpl)
         text = buf.getvalue()
         f = None
     else:
         f = FastaFile(chars_per_line=cpl)
         if mode == "raw":
-            for h, s in expected:
+            for h, s in given:
                 f[h] = s
         else:
             seqs, expected = [], []
@@ -331,13 +333,13 @@ def case_fasta(rng, ctx):
                 sq = B.Prot(s) if kind == "prot" else B.Nuc(s)
                 rna = kind != "prot" and rng.random() < 0.25
                 seqs.append((h, kind, s, sq, rna))
-                expected.append((h, s.replace("T", "U") if rna else s))
+                expected.append((h.strip(), s.replace("T", "U") if rna else s))
             if len({r[4] for r in seqs}) <= 1 and rng.random() < 0.5:
                 B.fasta.set_sequences(f, OrderedDict((r[0], r[3]) for r in seqs), as_rna=bool(seqs and seqs[0][4]))
             else:
                 for h, kind, s, sq, rna in seqs:
                     B.fasta.set_sequence(f, sq, h, as_rna=rna)
-        ctx.check(list(f.items()) == expected and len(f) == len(expected), "fasta_view",
+        ctx.check([(h.strip(), v) for h, v in f.items()] == expected and len(f) == len(expected), "fasta_view",
                   "items() of the filled FastaFile differ from what was set", got=_short(list(f.items())))
         if rng.random() < 0.5:
             buf = StringIO()
@@ -360,11 +362,11 @@ def case_fasta(rng, ctx):
             warnings.simplefilter("ignore")
             for h, kind, s, sq, rna in seqs:
                 cls = B.Prot if kind == "prot" else B.Nuc
-                back = B.fasta.get_sequence(g, h, seq_type=cls)
+                back = B.fasta.get_sequence(g, h.strip(), seq_type=cls)
                 if str(back) != s or not isinstance(back, cls):
                     ctx.fail("fasta_convert_roundtrip", "get_sequence(%r) = %s, written %s(%r)" % (h, _short(back), cls.__name__, s))
                 if kind != "prot" or any(c not in NUC_AMB + "XU" for c in s):
-                    auto = B.fasta.get_sequence(g, h)
+                    auto = B.fasta.get_sequence(g, h.strip())
                     if str(auto) != s or not isinstance(auto, cls):
                         ctx.fail("fasta_convert_roundtrip", "auto-detected get_sequence(%r) = %s, written %s(%r)" % (h, _short(auto), cls.__name__, s))
                 else:
@@ -373,7 +375,7 @@ def case_fasta(rng, ctx):
             if len(kinds) == 1:
                 cls = B.Prot if "prot" in kinds else B.Nuc
                 d = B.fasta.get_sequences(g, seq_type=cls)
-                if [(h, str(v)) for h, v in d.items()] != [(r[0], r[2]) for r in seqs]:
+                if [(h, str(v)) for h, v in d.items()] != [(r[0].strip(), r[2]) for r in seqs]:
                     ctx.fail("fasta_convert_roundtrip", "get_sequences differs from the sequences written", got=_short(d))
             first = B.fasta.get_sequence(g, seq_type=B.Prot if seqs[0][1] == "prot" else B.Nuc)
             if str(first) != seqs[0][2]:
@@ -480,12 +482,31 @@ def count_special_score_lines(ctx, text):
 
 
 def case_fastq(rng, ctx):
+    """Zero-length reads (only generated while that class is not quarantined) may be declined with
+    ValueError; if they are accepted the file must round-trip like any other."""
+    info = {}
+    try:
+        _case_fastq(rng, ctx, info)
+    except ValueError as e:
+        if not info.get("has_empty"):
+            raise
+        ctx.oracle("fastq_empty_declined_or_roundtrip")
+        ctx.exc(e)
+        ctx.note("fastq_empty_sequence_declined")
+    except Exception as e:
+        if info.get("has_empty") and getattr(e, "oracle", None) is not None:
+            ctx.fail("fastq_empty_declined_or_roundtrip", "file with a zero-length read accepted, then: %s" % e, **getattr(e, "detail", {}))
+        raise
+
+
+def _case_fastq(rng, ctx, info):
     offset, off = gen_offset(rng)
     cpl = None if rng.random() < 0.25 else rint(rng, 1, 100)
     n = pick(rng, [0, 1, 1, 2, 2, 3, 4])
     mode = pick(rng, ["raw", "raw", "convert", "iter"])
     min_len = 0 if (ctx.allowed("fastq_empty_sequence") and rng.random() < 0.1) else 1
     entries = fastq_entries(ctx, rng, n, cpl, off, min_len=min_len)
+    info["has_empty"] = any(len(e[1]) == 0 for e in entries)
     ctx.log("fastq", mode, repr(offset), cpl, [[h, s, kind, ref.tolist()] for h, s, _, ref, kind in entries])
     ctx.op("fastq_" + mode)
     FastqFile = B.fastq.FastqFile
@@ -1094,8 +1115,1069 @@ def case_gff(rng, ctx):
     ctx.state(("gff_annot", nfeat, stranded, sorted(len(l) for _, l, _ in feats)))
 
 
+# ------------------------------------------------------------------ edit histories: FASTA / FASTQ mappings
+class MapHarness:
+    """Lock-step of a FastaFile/FastqFile with an OrderedDict model."""
+
+    def __init__(self, ctx, rng, kind):
+        self.ctx, self.rng, self.kind = ctx, rng, kind
+        self.cpl = rint(rng, 1, 100) if rng.random() < 0.8 else (80 if kind == "fasta" else None)
+        if kind == "fastq":
+            self.offset, self.off = gen_offset(rng)
+        self.used = set()
+        self.model = OrderedDict()
+        self.changed = False
+
+    # -- construction
+    def new_file(self):
+        if self.kind == "fasta":
+            return B.fasta.FastaFile(chars_per_line=self.cpl)
+        return B.fastq.FastqFile(self.offset, chars_per_line=self.cpl)
+
+    def read(self, text):
+        if self.kind == "fasta":
+            return B.fasta.FastaFile.read(StringIO(text), chars_per_line=self.cpl)
+        return B.fastq.FastqFile.read(StringIO(text), offset=self.offset, chars_per_line=self.cpl)
+
+    def gen_value(self):
+        rng = self.rng
+        if self.kind == "fasta":
+            ln = gen_len(rng, self.cpl, 0, 150)
+            return gen_symbols(rng, pick(rng, [NUC, NUC_AMB, PROT]), ln, self.cpl)
+        lo = 0 if (self.ctx.allowed("fastq_empty_sequence") and rng.random() < 0.08) else 1
+        ln = gen_len(rng, self.cpl, lo, 150)
+        s = gen_symbols(rng, pick(rng, [NUC, NUC_AMB]), ln)
+        given, ref, _ = gen_scores(rng, ln, self.cpl, self.off)
+        return (s, given, ref)
+
+    def api_value(self, v):
+        return v if self.kind == "fasta" else (v[0], v[1])
+
+    def log_value(self, v):
+        return v if self.kind == "fasta" else [v[0], v[2].tolist()]
+
+    def same(self, got, v):
+        if self.kind == "fasta":
+            return got == v
+        return fastq_items_equal([("", got)], [("", v[0], v[2])])
+
+    def new_header(self):
+        blanks = self.ctx.allowed("header_surrounding_blanks") and self.rng.random() < 0.1
+        return gen_header(self.rng, self.used, blanks)
+
+    # -- oracle
+    def check(self, f, what):
+        ctx, model = self.ctx, self.model
+        ctx.oracle("edit_view_vs_model")
+        keys = list(f.keys())
+        # surrounding blanks of a header are stripped by the API (documented normalisation): compare modulo strip;
+        # whether the object's own key agrees with its text is judged by the re-parse oracle below
+        skeys = [k.strip() for k in keys]
+        if len(f) != len(model) or len(keys) != len(model) or set(skeys) != set(model):
+            ctx.fail("edit_view_vs_model", "after %s: keys %s, model %s" % (what, _short(keys), _short(list(model))))
+        for h in keys:
+            if h not in f or not self.same(f[h], model[h.strip()]):
+                ctx.fail("edit_view_vs_model", "after %s: value of %r is %s, model %s" % (what, h, _short(f[h]), _short(self.log_value(model[h.strip()]))))
+        items = list(f.items())
+        ctx.oracle("edit_reparse_consistency")
+        text = str(f)
+        buf = StringIO()
+        f.write(buf)
+        if buf.getvalue() != text + "\n":
+            ctx.fail("edit_reparse_consistency", "after %s: write() output is not str(file) + newline" % what)
+        try:
+            g = self.read(text)
+        except B.InvalidFileError as e:
+            ctx.exc(e)
+            if not model and text.strip() == "":
+                ctx.note("empty_file_declined")
+                return None
+            ctx.fail("edit_reparse_consistency", "after %s: reading str(file) raised InvalidFileError: %s" % (what, e), text=text[:800])
+        except Exception as e:
+            ctx.exc(e)
+            ctx.fail("edit_reparse_consistency", "after %s: reading str(file) raised %s: %s" % (what, type(e).__name__, e), text=text[:800])
+        gitems = list(g.items())
+        ok = len(gitems) == len(items)
+        if ok:
+            for (h1, v1), (h2, v2) in zip(items, gitems):
+                if h1 != h2 or (v1 != v2 if self.kind == "fasta" else not (v1[0] == v2[0] and np.array_equal(v1[1], v2[1]))):
+                    ok = False
+        if not ok:
+            ctx.fail("edit_reparse_consistency", "after %s: view of the object %s differs from view of read(str(object)) %s"
+                     % (what, _short(items, 400), _short(gitems, 400)), text=text[:800])
+        return g
+
+    # -- one step
+    def step(self, f):
+        ctx, rng, model = self.ctx, self.rng, self.model
+        ops = ["set_new", "set_new", "replace", "replace", "delete", "delete", "delete_missing", "get_missing",
+               "pop", "update", "clear", "reparse", "convert_set", "popitem", "setdefault"]
+        op = pick(rng, ops)
+        if op in ("replace", "delete", "pop", "popitem") and not model:
+            op = "set_new"
+        ctx.op(self.kind + "_" + op)
+        if op == "set_new":
+            h, v = self.new_header(), self.gen_value()
+            ctx.log("set", h, self.log_value(v))
+            self.assign(f, h, v)
+        elif op == "replace":
+            h, v = pick(rng, list(model)), self.gen_value()
+            ctx.log("replace", h, self.log_value(v))
+            self.assign(f, h, v)
+        elif op == "delete":
+            h = pick(rng, list(model))
+            ctx.log("del", h)
+            del f[h]
+            del model[h]
+            self.changed = True
+        elif op in ("delete_missing", "get_missing"):
+            h = gen_header(rng, set(self.used))
+            ctx.log(op, h)
+            ctx.oracle("key_error_expected")
+            try:
+                if op == "delete_missing":
+                    del f[h]
+                else:
+                    f[h]
+            except KeyError as e:
+                ctx.exc(e)
+            else:
+                ctx.fail("key_error_expected", "%s of the absent key %r did not raise KeyError" % (op, h))
+            ctx.oracle("state_unchanged_after_reject")
+        elif op == "pop":
+            h = pick(rng, list(model))
+            ctx.log("pop", h)
+            got = f.pop(h)
+            if not self.same(got, model[h]):
+                ctx.fail("edit_view_vs_model", "pop(%r) returned %s" % (h, _short(got)))
+            del model[h]
+            self.changed = True
+        elif op == "popitem":
+            ctx.log("popitem")
+            h, got = f.popitem()
+            if h not in model or not self.same(got, model[h]):
+                ctx.fail("edit_view_vs_model", "popitem() returned %r, %s" % (h, _short(got)))
+            del model[h]
+            self.changed = True
+        elif op == "setdefault":
+            if model and rng.random() < 0.5:
+                h, v = pick(rng, list(model)), self.gen_value()
+                got = f.setdefault(h, self.api_value(v))
+                if not self.same(got, model[h]):
+                    ctx.fail("edit_view_vs_model", "setdefault(existing %r) returned %s" % (h, _short(got)))
+                ctx.log("setdefault_existing", h)
+            else:
+                h, v = self.new_header(), self.gen_value()
+                ctx.log("setdefault", h, self.log_value(v))
+                if self.empty_declined(f, h, v):
+                    return f
+                f.setdefault(h, self.api_value(v))
+                model[h.strip()] = v
+                self.changed = True
+        elif op == "update":
+            n = rint(rng, 1, 3)
+            upd = OrderedDict()
+            for _ in range(n):
+                h = pick(rng, list(model)) if (model and rng.random() < 0.4) else self.new_header()
+                upd[h] = self.gen_value()
+            upd = OrderedDict((h, v) for h, v in upd.items() if self.kind == "fasta" or len(v[0]) > 0)
+            ctx.log("update", [[h, self.log_value(v)] for h, v in upd.items()])
+            f.update(OrderedDict((h, self.api_value(v)) for h, v in upd.items()))
+            for h, v in upd.items():
+                model[h.strip()] = v
+                self.changed = True
+        elif op == "clear":
+            ctx.log("clear")
+            f.clear()
+            self.changed = self.changed or bool(model)
+            model.clear()
+        elif op == "reparse":
+            ctx.log("continue_on_reparsed_object")
+            if model:
+                f = self.read(str(f))
+        elif op == "convert_set":
+            h = self.new_header() if (not model or rng.random() < 0.6) else pick(rng, list(model))
+            if self.kind == "fasta":
+                s = gen_symbols(rng, pick(rng, [NUC, NUC_AMB, PROT]), gen_len(rng, self.cpl, 0, 100), self.cpl)
+                sq = B.Prot(s) if any(c not in NUC_AMB for c in s) else B.Nuc(s)
+                ctx.log("fasta.set_sequence", h, s)
+                B.fasta.set_sequence(f, sq, h)
+                model[h.strip()] = s
+            else:
+                ln = gen_len(rng, self.cpl, 1, 100)
+                s = gen_symbols(rng, NUC_AMB, ln)
+                given, ref, _ = gen_scores(rng, ln, self.cpl, self.off)
+                ctx.log("fastq.set_sequence", h, s, ref.tolist())
+                B.fastq.set_sequence(f, B.Nuc(s), given, h)
+                model[h.strip()] = (s, given, ref)
+            self.changed = True
+        g = self.check(f, op)
+        return f
+
+    def empty_declined(self, f, h, v):
+        """FASTQ entry of length 0: either declined with ValueError (file unchanged) or it must round-trip."""
+        if self.kind != "fastq" or len(v[0]) > 0:
+            return False
+        self.ctx.oracle("fastq_empty_declined_or_roundtrip")
+        before = str(f)
+        try:
+            f[h] = self.api_value(v)
+        except ValueError as e:
+            self.ctx.exc(e)
+            if str(f) != before:
+                self.ctx.fail("state_unchanged_after_reject", "FastqFile changed by a rejected empty entry")
+            self.check(f, "rejected empty entry")
+            return True
+        self.model[h.strip()] = v
+        self.changed = True
+        try:
+            self.check(f, "set empty entry")
+        except Exception as e:
+            oracle = getattr(e, "oracle", "unexpected_exception")
+            self.ctx.fail("fastq_empty_declined_or_roundtrip", "zero-length entry %r accepted, then: %s" % (h, e), via=oracle)
+        return True
+
+    def assign(self, f, h, v):
+        if self.empty_declined(f, h, v):
+            return
+        f[h] = self.api_value(v)
+        self.model[h.strip()] = v
+        self.changed = True
+        if h != h.strip():
+            self.ctx.mark_nontrivial()
+
+
+def case_edit_map(rng, ctx, kind):
+    hz = MapHarness(ctx, rng, kind)
+    ctx.log(kind + "_history", hz.cpl, repr(getattr(hz, "offset", None)))
+    f = hz.new_file()
+    n0 = pick(rng, [0, 0, 1, 2, 3])
+    for _ in range(n0):
+        h, v = gen_header(rng, hz.used), hz.gen_value()
+        if kind == "fastq" and len(v[0]) == 0:
+            continue
+        ctx.log("init", h, hz.log_value(v))
+        f[h] = hz.api_value(v)
+        hz.model[h] = v
+    if hz.model and rng.random() < 0.5:
+        f = hz.read(str(f))
+        ctx.log("start_from_parsed_file")
+    hz.check(f, "initial fill")
+    for _ in range(rint(rng, 1, 12)):
+        f = hz.step(f)
+        ctx.state((kind, [(h, len(hz.log_value(v)[0]) if kind == "fastq" else len(v)) for h, v in hz.model.items()]))
+    ctx.mark_nontrivial(hz.changed)
+    if not hz.changed:
+        ctx._nontrivial_flag = False
+
+
+# ------------------------------------------------------------------ edit histories: GenBankFile (list of fields)
+GB_FIELD_NAMES = ["LOCUS", "DEFINITION", "ACCESSION", "VERSION", "KEYWORDS", "SOURCE", "REFERENCE", "REFERENCE",
+                  "COMMENT", "DBLINK", "FEATURES", "ORIGIN"]
+
+
+def gen_gb_line(rng):
+    kind = pick(rng, ["text", "text", "text", "empty", "blanks", "indented"])
+    if kind == "empty":
+        return ""
+    if kind == "blanks":
+        return " " * rint(rng, 1, 4)
+    t = gen_text(rng, rint(rng, 1, 60), specials="/=\";.", p_special=0.1)
+    if kind == "indented":
+        return " " * rint(rng, 1, 5) + t + " " * rint(rng, 0, 2)
+    return t
+
+
+def gen_gb_field(rng, ctx):
+    """(name as given, content, subfields or None)."""
+    r = rng.random()
+    if r < 0.6:
+        name = pick(rng, GB_FIELD_NAMES)
+        if rng.random() < 0.3:
+            name = name.lower() if rng.random() < 0.5 else name.capitalize()
+    else:
+        name = gen_text(rng, rint(rng, 1, 12), p_uni=0, punct="_-.")
+        if name.startswith("//"):
+            name = "X" + name[1:]
+    if name.upper() in ("FEATURES", "ORIGIN"):
+        if name.upper() == "ORIGIN":
+            content = ["%9d %s" % (1 + 60 * i, gen_symbols(rng, "acgt", rint(rng, 1, 10))) for i in range(rint(rng, 0, 3))]
+        else:
+            content = []
+            for _ in range(rint(rng, 0, 3)):
+                content.append("     %-15s %d..%d" % (pick(rng, GB_KEYS), rint(rng, 1, 50), rint(rng, 50, 99)))
+                for _ in range(rint(rng, 0, 2)):
+                    content.append(" " * 21 + '/%s="%s"' % (pick(rng, QUAL_KEYS), gen_text(rng, rint(rng, 0, 20), exclude='"')))
+        sub = None if rng.random() < 0.7 else {"IGNORED": ["x"]}
+        return name, content, sub
+    empty_ok = ctx.allowed("gb_empty_line_list")
+    nlines = rint(rng, 1, 3)
+    if empty_ok and rng.random() < 0.08:
+        nlines = 0
+    content = [gen_gb_line(rng) for _ in range(nlines)]
+    sub = None
+    if rng.random() < 0.4:
+        sub = OrderedDict()
+        seen = set()
+        for _ in range(rint(rng, 0, 3)):
+            sn = pick(rng, ["ORGANISM", "AUTHORS", "TITLE", "JOURNAL", "PUBMED", "organism", "Sub field", "ABCDEFGHIJ", "x"])
+            if sn.upper() in seen:
+                continue
+            seen.add(sn.upper())
+            k = rint(rng, 1, 3)
+            if empty_ok and rng.random() < 0.08:
+                k = 0
+            sub[sn] = [gen_gb_line(rng) for _ in range(k)]
+    return name, content, sub
+
+
+def gb_model_field(name, content, sub):
+    up = name.strip().upper()
+    if up in ("FEATURES", "ORIGIN"):
+        return [up, list(content), OrderedDict()]
+    return [up, list(content), OrderedDict((k.upper().strip(), list(v)) for k, v in (sub or {}).items())]
+
+
+def gb_view(f):
+    return [f[i] for i in range(len(f))]
+
+
+def _lines_match(got, given):
+    """An empty line list cannot be written; one empty line is the only faithful rendering."""
+    return list(got) == list(given) or (len(given) == 0 and list(got) == [""])
+
+
+def gb_check(ctx, f, model, what):
+    ctx.oracle("edit_view_vs_model")
+    if len(f) != len(model):
+        ctx.fail("edit_view_vs_model", "after %s: len(file) = %d, model %d" % (what, len(f), len(model)))
+    view = gb_view(f)
+    for i, ((name, content, sub), (mname, mcontent, msub)) in enumerate(zip(view, model)):
+        ok = name == mname and _lines_match(content, mcontent) and list(sub.keys()) == list(msub.keys()) \
+            and all(_lines_match(sub[k], msub[k]) for k in msub)
+        if not ok:
+            ctx.fail("edit_view_vs_model", "after %s: field %d is %s, model %s" % (what, i, _short((name, content, dict(sub)), 500), _short((mname, mcontent, dict(msub)), 500)),
+                     text=str(f)[:1200])
+    if model:
+        last = f[-1]
+        first = f[-len(model)]
+        if (last[0], last[1]) != (view[-1][0], view[-1][1]) or (first[0], first[1]) != (view[0][0], view[0][1]):
+            ctx.fail("edit_view_vs_model", "after %s: negative indices do not address the same fields" % what)
+        nm = model[len(model) // 2][0]
+        if f.get_indices(nm) != [i for i, m in enumerate(model) if m[0] == nm]:
+            ctx.fail("edit_view_vs_model", "after %s: get_indices(%r) = %r" % (what, nm, f.get_indices(nm)))
+    ctx.oracle("edit_reparse_consistency")
+    text = str(f)
+    buf = StringIO()
+    f.write(buf)
+    if buf.getvalue() != text + "\n":
+        ctx.fail("edit_reparse_consistency", "after %s: write() output is not str(file) + newline" % what)
+    try:
+        g = B.gb.GenBankFile.read(StringIO(text))
+        gview = gb_view(g)
+    except Exception as e:
+        ctx.exc(e)
+        ctx.fail("edit_reparse_consistency", "after %s: reading str(file) raised %s: %s" % (what, type(e).__name__, e), text=text[:1200])
+    if gview != view:
+        ctx.fail("edit_reparse_consistency", "after %s: fields of the object differ from fields of read(str(object))" % what,
+                 object_view=_short(view, 800), reparsed_view=_short(gview, 800), text=text[:1200])
+    return g
+
+
+def gb_reject(ctx, f, model, what, fn):
+    ctx.oracle("index_error_expected")
+    try:
+        res = fn()
+    except IndexError as e:
+        ctx.exc(e)
+    else:
+        ctx.fail("index_error_expected", "%s on %d fields returned %s instead of raising IndexError" % (what, len(model), _short(res)),
+                 text=str(f)[:800])
+    ctx.oracle("state_unchanged_after_reject")
+    try:
+        gb_check(ctx, f, model, what)
+    except Exception as e:
+        if getattr(e, "oracle", None) is None:
+            raise
+        ctx.fail("state_unchanged_after_reject", "rejected %s changed the file: %s" % (what, e))
+
+
+def case_edit_genbank(rng, ctx):
+    f = B.gb.GenBankFile()
+    model = []
+    changed = False
+    for _ in range(pick(rng, [0, 0, 1, 2, 4])):
+        name, content, sub = gen_gb_field(rng, ctx)
+        ctx.log("init_append", name, content, None if sub is None else list(sub.items()))
+        f.append(name, content, sub)
+        model.append(gb_model_field(name, content, sub))
+    if rng.random() < 0.4:
+        f = B.gb.GenBankFile.read(StringIO(str(f)))
+        ctx.log("start_from_parsed_file")
+    gb_check(ctx, f, model, "initial fill")
+    for _ in range(rint(rng, 1, 12)):
+        n = len(model)
+        op = pick(rng, ["append", "insert", "insert", "set", "set", "set_field", "set_field", "delete", "delete",
+                        "bad_index", "clear", "reparse", "high_level"])
+        if op in ("set", "delete") and n == 0:
+            op = "append"
+        ctx.op("genbank_" + op)
+        if op == "append":
+            name, content, sub = gen_gb_field(rng, ctx)
+            ctx.log("append", name, content, None if sub is None else list(sub.items()))
+            f.append(name, content, sub) if (sub is not None or rng.random() < 0.5) else f.append(name, content)
+            model.append(gb_model_field(name, content, sub))
+            changed = True
+        elif op == "insert":
+            i = rint(rng, -n, n)
+            name, content, sub = gen_gb_field(rng, ctx)
+            ctx.log("insert", i, name, content, None if sub is None else list(sub.items()))
+            f.insert(i, name, content, sub)
+            model.insert(i if i >= 0 else n + i, gb_model_field(name, content, sub))
+            changed = True
+            ctx.mark_nontrivial(i < 0)
+        elif op == "set":
+            i = rint(rng, -n, n - 1)
+            name, content, sub = gen_gb_field(rng, ctx)
+            ctx.log("setitem", i, name, content, None if sub is None else list(sub.items()))
+            if sub is None and rng.random() < 0.5:
+                f[i] = (name, content)
+            else:
+                f[i] = (name, content, sub)
+            model[i] = gb_model_field(name, content, sub)
+            changed = True
+            ctx.mark_nontrivial(i < 0)
+        elif op == "set_field":
+            name, content, sub = gen_gb_field(rng, ctx)
+            if model and rng.random() < 0.5:
+                target = pick(rng, model)[0]
+                while (name.upper() in ("FEATURES", "ORIGIN")) != (target in ("FEATURES", "ORIGIN")) or \
+                        (target in ("FEATURES", "ORIGIN") and name.upper() != target):
+                    name, content, sub = gen_gb_field(rng, ctx)
+                name = target
+            idx = [i for i, m in enumerate(model) if m[0] == name.strip().upper()]
+            ctx.log("set_field", name, content, None if sub is None else list(sub.items()))
+            if len(idx) > 1:
+                ctx.oracle("ambiguous_set_field_rejected")
+                try:
+                    f.set_field(name, content, sub)
+                except B.InvalidFileError as e:
+                    ctx.exc(e)
+                else:
+                    ctx.fail("ambiguous_set_field_rejected", "set_field(%r) accepted although the field occurs %d times" % (name, len(idx)))
+            else:
+                f.set_field(name, content, sub)
+                if idx:
+                    model[idx[0]] = gb_model_field(name, content, sub)
+                else:
+                    model.append(gb_model_field(name, content, sub))
+                changed = True
+        elif op == "delete":
+            i = rint(rng, -n, n - 1)
+            ctx.log("del", i)
+            del f[i]
+            del model[i]
+            changed = True
+            ctx.mark_nontrivial(i < 0)
+        elif op == "bad_index":
+            low_ok = ctx.allowed("gb_index_below_minus_len")
+            bad = pick(rng, [n, n + 1, n + 5] + ([-n - 1, -n - 2, -2 * n - 3] if low_ok else []))
+            how = pick(rng, ["get", "set", "del", "insert"])
+            if how == "insert" and bad == n:
+                bad = n + 1
+            ctx.log("bad_index", how, bad)
+            ctx.mark_nontrivial()
+            if how == "get":
+                gb_reject(ctx, f, model, "file[%d]" % bad, lambda: f[bad])
+            elif how == "set":
+                gb_reject(ctx, f, model, "file[%d] = ..." % bad, lambda: f.__setitem__(bad, ("COMMENT", ["x"])))
+            elif how == "del":
+                gb_reject(ctx, f, model, "del file[%d]" % bad, lambda: f.__delitem__(bad))
+            else:
+                gb_reject(ctx, f, model, "file.insert(%d, ...)" % bad, lambda: f.insert(bad, "COMMENT", ["x"]))
+            continue
+        elif op == "clear":
+            ctx.log("clear")
+            while len(f):
+                del f[-1 if rng.random() < 0.5 else 0]
+            changed = changed or bool(model)
+            model = []
+        elif op == "reparse":
+            ctx.log("continue_on_reparsed_object")
+            f = B.gb.GenBankFile.read(StringIO(str(f)))
+        elif op == "high_level":
+            # set_sequence / set_annotation / set_locus go through set_field: position logic is modelled,
+            # the content is taken from the object and checked through the typed getter
+            which = pick(rng, ["ORIGIN", "FEATURES", "LOCUS"])
+            idx = [i for i, m in enumerate(model) if m[0] == which]
+            if len(idx) > 1:
+                continue
+            if which == "ORIGIN":
+                s = gen_symbols(rng, NUC_AMB, rint(rng, 1, 130))
+                st = pick(rng, [1, 7, 1000])
+                ctx.log("set_sequence", s, st)
+                B.gb.set_sequence(f, B.Nuc(s), st)
+            elif which == "FEATURES":
+                feats = [gen_feature(rng, ctx, 1, 100, "gb")[0] for _ in range(rint(rng, 1, 3))]
+                ctx.log("set_annotation", [[k, sorted(map(lambda l: [l[0], l[1], l[2], sorted(l[3])], locs), key=repr), list(q)] for k, locs, q in feats])
+                B.gb.set_annotation(f, B.Annotation([make_feature(x) for x in feats]))
+            else:
+                loc = ("NAME%d" % rint(rng, 0, 99), rint(rng, 1, 10 ** 6), "DNA", False, "SYN", "01-JAN-2000")
+                ctx.log("set_locus", list(loc))
+                B.gb.set_locus(f, *loc)
+            pos = idx[0] if idx else len(model)
+            new = [which, list(f[pos][1]), OrderedDict()]
+            if idx:
+                model[pos] = new
+            else:
+                model.append(new)
+            changed = True
+            gb_check(ctx, f, model, "high_level " + which)
+            with warnings.catch_warnings():
+                warnings.simplefilter("ignore")
+                if which == "ORIGIN":
+                    ctx.check(str(B.gb.get_sequence(f)) == s, "gb_sequence", "get_sequence after set_sequence in a history differs")
+                elif which == "FEATURES":
+                    diff = classify_annotation_diff({norm_model_feature(x) for x in feats}, {norm_feature(x) for x in B.gb.get_annotation(f)})
+                    if diff:
+                        ctx.fail(diff[0], "history: " + diff[1], text=str(f)[:1200])
+                else:
+                    ctx.check(tuple(B.gb.get_locus(f)) == loc, "gb_locus", "get_locus after set_locus in a history differs")
+            continue
+        gb_check(ctx, f, model, op)
+        ctx.state(("gb_edit", [(m[0], len(m[1]), len(m[2])) for m in model]))
+    if not changed:
+        ctx._nontrivial_flag = False
+    else:
+        ctx.mark_nontrivial(len(model) > 0 or changed)
+
+
+# ------------------------------------------------------------------ edit histories: GFFFile (entries + directives)
+def gff_model_entries(items):
+    return [gff_expected(x[1]) for x in items if x[0] == "e"]
+
+
+def gff_model_insert(items, index, entry):
+    """Entry index semantics of GFFFile.insert: directly before the line of entry `index`."""
+    pos = [k for k, x in enumerate(items) if x[0] == "e"]
+    n = len(pos)
+    if index == n:
+        items.append(("e", entry))
+    else:
+        items.insert(pos[index], ("e", entry))     # negative indices like a list
+
+
+def gff_check(ctx, f, items, what):
+    ctx.oracle("edit_view_vs_model")
+    exp = gff_model_entries(items)
+    try:
+        view = gff_view(f)
+    except Exception as e:
+        ctx.exc(e)
+        ctx.fail("edit_view_vs_model", "after %s: reading the entries of the object raised %s: %s" % (what, type(e).__name__, e), text=str(f)[:900])
+    if len(f) != len(exp) or view != exp:
+        ctx.fail("edit_view_vs_model", "after %s: entries %s, model %s" % (what, _short(view, 700), _short(exp, 700)), text=str(f)[:900])
+    if list(map(gff_norm_view, f)) != view:
+        ctx.fail("edit_view_vs_model", "after %s: iteration differs from indexing" % what)
+    if exp and (gff_norm_view(f[-1]) != exp[-1] or gff_norm_view(f[-len(exp)]) != exp[0]):
+        ctx.fail("edit_view_vs_model", "after %s: negative indices do not address the same entries" % what)
+    dexp = [(x[1], k) for k, x in enumerate(items) if x[0] == "d"]
+    if f.directives() != dexp:
+        ctx.fail("edit_view_vs_model", "after %s: directives() = %s, model %s" % (what, _short(f.directives()), _short(dexp)))
+    ctx.oracle("edit_reparse_consistency")
+    text = str(f)
+    buf = StringIO()
+    f.write(buf)
+    if buf.getvalue() != text + "\n":
+        ctx.fail("edit_reparse_consistency", "after %s: write() output is not str(file) + newline" % what)
+    try:
+        g = B.gff.GFFFile.read(StringIO(text))
+        gview = gff_view(g)
+    except Exception as e:
+        ctx.exc(e)
+        ctx.fail("edit_reparse_consistency", "after %s: reading str(file) raised %s: %s" % (what, type(e).__name__, e), text=text[:900])
+    if gview != view or g.directives() != f.directives():
+        ctx.fail("edit_reparse_consistency", "after %s: view of the object differs from view of read(str(object))" % what,
+                 object_view=_short(view, 700), reparsed_view=_short(gview, 700), text=text[:900])
+
+
+def gff_reject(ctx, f, items, what, fn, exc=IndexError):
+    ctx.oracle("index_error_expected")
+    try:
+        res = fn()
+    except exc as e:
+        ctx.exc(e)
+    else:
+        ctx.fail("index_error_expected", "%s returned %s instead of raising %s" % (what, _short(res), exc.__name__), text=str(f)[:600])
+    ctx.oracle("state_unchanged_after_reject")
+    try:
+        gff_check(ctx, f, items, what)
+    except Exception as e:
+        if getattr(e, "oracle", None) is None:
+            raise
+        ctx.fail("state_unchanged_after_reject", "rejected %s changed the file: %s" % (what, e))
+
+
+def log_entry(e):
+    return [repr(x) if isinstance(x, float) else x for x in e[:8]] + [None if e[8] is None else list(e[8].items())]
+
+
+def case_edit_gff(rng, ctx):
+    f = B.gff.GFFFile()
+    items = [("d", "gff-version 3")]
+    changed = False
+    for _ in range(pick(rng, [0, 0, 1, 2, 4])):
+        e = gen_gff_entry(rng, ctx)
+        ctx.log("init_append", log_entry(e))
+        f.append(*gff_args(e))
+        items.append(("e", e))
+    if rng.random() < 0.4:
+        f = B.gff.GFFFile.read(StringIO(str(f)))
+        ctx.log("start_from_parsed_file")
+    gff_check(ctx, f, items, "initial fill")
+    for _ in range(rint(rng, 1, 12)):
+        n = sum(1 for x in items if x[0] == "e")
+        op = pick(rng, ["append", "append", "insert", "insert", "set", "set", "delete", "delete", "directive",
+                        "bad_index", "clear", "reparse", "fasta_directive"])
+        if op in ("set", "delete") and n == 0:
+            op = "append"
+        ctx.op("gff_" + op)
+        if op == "append":
+            e = gen_gff_entry(rng, ctx)
+            ctx.log("append", log_entry(e))
+            f.append(*gff_args(e))
+            items.append(("e", e))
+            changed = True
+        elif op == "insert":
+            i = rint(rng, -n, n)
+            e = gen_gff_entry(rng, ctx)
+            ctx.log("insert", i, log_entry(e))
+            f.insert(i, *gff_args(e))
+            gff_model_insert(items, i, e)
+            changed = True
+            ctx.mark_nontrivial(i < 0)
+        elif op == "set":
+            i = rint(rng, -n, n - 1)
+            e = gen_gff_entry(rng, ctx)
+            ctx.log("setitem", i, log_entry(e))
+            f[i] = gff_args(e)
+            pos = [k for k, x in enumerate(items) if x[0] == "e"]
+            items[pos[i]] = ("e", e)
+            changed = True
+            ctx.mark_nontrivial(i < 0)
+        elif op == "delete":
+            i = rint(rng, -n, n - 1)
+            ctx.log("del", i)
+            del f[i]
+            pos = [k for k, x in enumerate(items) if x[0] == "e"]
+            del items[pos[i]]
+            changed = True
+            ctx.mark_nontrivial(i < 0)
+        elif op == "directive":
+            name = pick(rng, ["sequence-region", "species", "genome-build", "Example directive", "feature-ontology", "#"])
+            args = [gen_text(rng, rint(rng, 1, 8), p_space=0) for _ in range(rint(rng, 0, 3))]
+            ctx.log("append_directive", name, args)
+            f.append_directive(name, *args)
+            items.append(("d", name + " " + " ".join(args)))
+            changed = True
+        elif op == "fasta_directive":
+            ctx.log("append_directive", "FASTA")
+            gff_reject(ctx, f, items, "append_directive('FASTA')", lambda: f.append_directive("FASTA"), NotImplementedError)
+            continue
+        elif op == "bad_index":
+            bad = pick(rng, [n, n + 1, n + 5, -n - 1, -n - 2])
+            how = pick(rng, ["get", "set", "del", "insert"])
+            if how == "insert" and bad == n:
+                bad = n + 1
+            ctx.log("bad_index", how, bad)
+            ctx.mark_nontrivial()
+            e = gff_args(gen_gff_entry(rng, ctx))
+            if how == "get":
+                gff_reject(ctx, f, items, "file[%d]" % bad, lambda: f[bad])
+            elif how == "set":
+                gff_reject(ctx, f, items, "file[%d] = ..." % bad, lambda: f.__setitem__(bad, e))
+            elif how == "del":
+                gff_reject(ctx, f, items, "del file[%d]" % bad, lambda: f.__delitem__(bad))
+            else:
+                gff_reject(ctx, f, items, "file.insert(%d, ...)" % bad, lambda: f.insert(bad, *e))
+            continue
+        elif op == "clear":
+            ctx.log("clear")
+            while len(f):
+                del f[-1 if rng.random() < 0.5 else 0]
+            changed = changed or n > 0
+            items = [x for x in items if x[0] == "d"]
+        elif op == "reparse":
+            ctx.log("continue_on_reparsed_object")
+            f = B.gff.GFFFile.read(StringIO(str(f)))
+        gff_check(ctx, f, items, op)
+        ctx.state(("gff_edit", [x[0] if x[0] == "d" else (x[1][6], x[1][7], len(x[1][8] or {})) for x in items]))
+    ctx.mark_nontrivial(changed and any(gff_special(x[1]) for x in items if x[0] == "e"))
+    if not changed:
+        ctx._nontrivial_flag = False
+
+
+# ------------------------------------------------------------------ general.py (file paths)
+def _path(suffix):
+    B.counter += 1
+    return os.path.join(B.work, "c12_%d_%d%s" % (os.getpid(), B.counter, suffix))
+
+
+def case_general(rng, ctx):
+    sio = B.sio
+    mode = pick(rng, ["single", "single", "multi", "multi_genbank"])
+    ctx.op("general_" + mode)
+    ctx.oracle("general_roundtrip")
+    paths = []
+    try:
+        if mode == "single":
+            suffix = pick(rng, [".fasta", ".fa", ".mpfa", ".fna", ".fsa", ".fastq", ".fq", ".gb", ".gbk", ".gp"])
+            if suffix == ".gp" or (suffix in (".fasta", ".fa", ".mpfa", ".fna", ".fsa") and rng.random() < 0.4):
+                s = gen_symbols(rng, PROT, rint(rng, 1, 200), 60)
+                if suffix != ".gp" and all(c in NUC_AMB + "XU" for c in s):
+                    s += "L"        # FASTA carries no type: make the string unambiguously a protein
+                sq = B.Prot(s)
+            else:
+                s = gen_symbols(rng, pick(rng, [NUC, NUC_AMB]), rint(rng, 1, 200))
+                sq = B.Nuc(s)
+            ctx.log("save_sequence", suffix, type(sq).__name__, s)
+            ctx.mark_nontrivial(len(s) > 60)
+            p = _path(suffix)
+            paths.append(p)
+            sio.save_sequence(p, sq)
+            with warnings.catch_warnings():
+                warnings.simplefilter("ignore")
+                back = sio.load_sequence(p)
+            if str(back) != s or type(back) is not type(sq):
+                ctx.fail("general_roundtrip", "load_sequence(save_sequence(%s)) = %s, saved %s(%r)" % (suffix, _short(back), type(sq).__name__, s))
+        elif mode == "multi":
+            suffix = pick(rng, [".fasta", ".fa", ".fastq", ".fq", ".gb"])
+            if suffix in (".fastq", ".fq") and not ctx.allowed("general_save_sequences_fastq"):
+                suffix = ".fasta"
+            used = set()
+            d = OrderedDict()
+            for _ in range(rint(rng, 1, 4)):
+                h = gen_header(rng, used)
+                d[h] = B.Nuc(gen_symbols(rng, pick(rng, [NUC, NUC_AMB]), rint(rng, 1, 150)))
+            ctx.log("save_sequences", suffix, [[h, str(v)] for h, v in d.items()])
+            ctx.mark_nontrivial(len(d) > 1)
+            p = _path(suffix)
+            paths.append(p)
+            if suffix == ".gb":
+                try:
+                    sio.save_sequences(p, d)
+                except NotImplementedError as e:
+                    ctx.exc(e)
+                    ctx.note("multi_record_genbank_writing_declined")
+                    return
+                ctx.fail("general_roundtrip", "save_sequences(.gb) neither declined nor documented")
+            sio.save_sequences(p, d)
+            back = sio.load_sequences(p)
+            got = [(h, str(v)) for h, v in back.items()]
+            if got != [(h, str(v)) for h, v in d.items()]:
+                ctx.fail("general_roundtrip", "load_sequences(save_sequences(%s)) = %s, saved %s" % (suffix, _short(got), _short([(h, str(v)) for h, v in d.items()])))
+        else:
+            fmt = pick(rng, ["gb", "gp"])
+            recs = []
+            text = ""
+            for k in range(rint(rng, 1, 4)):
+                name = ("record %d %s" % (k, gen_text(rng, rint(rng, 0, 10), p_space=0))).strip()
+                s = gen_symbols(rng, PROT if fmt == "gp" else NUC_AMB, rint(rng, 1, 150), 60)
+                f = B.gb.GenBankFile()
+                f.set_field("DEFINITION", [name])
+                B.gb.set_sequence(f, B.Prot(s) if fmt == "gp" else B.Nuc(s))
+                text += str(f) + "\n"
+                recs.append((name, s))
+            ctx.log("load_sequences_multi", fmt, recs)
+            ctx.mark_nontrivial(len(recs) > 1)
+            p = _path("." + fmt)
+            paths.append(p)
+            with open(p, "w") as fh:
+                fh.write(text)
+            back = sio.load_sequences(p)
+            got = [(h, str(v)) for h, v in back.items()]
+            if got != recs:
+                ctx.fail("general_roundtrip", "load_sequences(multi-record .%s) = %s, written %s" % (fmt, _short(got), _short(recs)))
+    finally:
+        for p in paths:
+            try:
+                os.remove(p)
+            except OSError:
+                pass
+
+
 def run_case(stratum, rng, ctx):
     return CASES[stratum](rng, ctx)
 
 
-CASES = {"fasta": case_fasta, "fastq": case_fastq, "genbank": case_genbank, "gff": case_gff}
+CASES = {"fasta": case_fasta, "fastq": case_fastq, "genbank": case_genbank, "gff": case_gff,
+         "edit_fasta": lambda rng, ctx: case_edit_map(rng, ctx, "fasta"),
+         "edit_fastq": lambda rng, ctx: case_edit_map(rng, ctx, "fastq"),
+         "edit_genbank": case_edit_genbank, "edit_gff": case_edit_gff, "general": case_general}
+
+
+# ------------------------------------------------------------------ oracle audit
+def selftest(ctx):
+    rng = np.random.default_rng(12)
+    # generators: printable, never blank at the ends, never a line break; headers unique also after strip
+    used = set()
+    heads = []
+    for _ in range(400):
+        t = gen_text(rng, rint(rng, 0, 60), specials=">@+;%=&,")
+        assert t == t.strip() and t.isprintable() and "\n" not in t, repr(t)
+        t2 = gen_text(rng, rint(rng, 1, 12), p_uni=0, p_space=0, punct="")
+        assert t2.isalnum() and t2.isascii(), repr(t2)
+        heads.append(gen_header(rng, used, blanks=bool(rng.random() < 0.3)))
+    assert len({h.strip() for h in heads}) == len(heads)
+    assert all(c.isprintable() and not c.isspace() for c in _UNI + _PUNCT + _ALNUM)
+    assert set(PROT) == set(B.Prot.alphabet.get_symbols()) and set(NUC_AMB) == set(B.Nuc.alphabet_amb.get_symbols())
+    # location model <-> Location for every defect subset and strand
+    for bits in range(16):
+        d = frozenset(n for k, n in enumerate(["BL", "BR", "UNK", "BET"]) if bits >> k & 1)
+        for st in ("F", "R", None):
+            loc = (3, 9, st, d)
+            assert norm_location(make_location(loc)) == loc
+    assert norm_location(B.Location(1, 2, B.S.FORWARD, B.D.MISS_LEFT))[3] != frozenset()
+    # diff classifier
+    a = ("gene", frozenset({(1, 5, "F", frozenset())}), frozenset({("a", "b")}))
+    a_loc = ("gene", frozenset({(1, 5, "F", frozenset({"BR"}))}), frozenset({("a", "b")}))
+    a_q = ("gene", frozenset({(1, 5, "F", frozenset())}), frozenset({("a", None)}))
+    b = ("CDS", frozenset({(2, 3, "R", frozenset())}), frozenset())
+    assert classify_annotation_diff({a, b}, {b, a}) is None
+    assert classify_annotation_diff({a_loc, b}, {a, b})[0] == "gb_location"
+    assert classify_annotation_diff({a_q, b}, {a, b})[0] == "gb_qualifier"
+    assert classify_annotation_diff({a, b}, {b})[0] == "gb_feature_dropped"
+    assert classify_annotation_diff({a}, {b})[0] == "gb_feature_set"
+    assert classify_annotation_diff(set(), {b})[0] == "gb_feature_set"
+    # CDS phase reference against brute force over the concatenated coding sequence
+    for lens in itertools.product(range(1, 6), repeat=3):
+        ref = reference_phases(list(lens))
+        pos = 0
+        for ln, ph in zip(lens, ref):
+            brute = next(k for k in range(3) if (pos + k) % 3 == 0)
+            assert brute == ph, (lens, ref)
+            pos += ln
+    # GFF entry-index model against plain list semantics
+    for n in range(4):
+        for pattern in itertools.product("de", repeat=n + 1):
+            base = [("d", "x")] + [(k, i) for i, k in enumerate(pattern)]
+            ents = [x[1] for x in base if x[0] == "e"]
+            for idx in range(-len(ents), len(ents) + 1):
+                items = list(base)
+                gff_model_insert(items, idx, "NEW")
+                ref = list(ents)
+                ref.insert(idx, "NEW")
+                assert [x[1] for x in items if x[0] == "e"] == ref, (pattern, idx)
+                assert [x for x in items if x[0] == "d"] == [x for x in base if x[0] == "d"]
+    # GenBank field model
+    assert gb_model_field(" locus ", ["a"], {"org ": ["x"], "B": []}) == ["LOCUS", ["a"], OrderedDict([("ORG", ["x"]), ("B", [])])]
+    assert gb_model_field("features", [" x"], {"S": ["y"]}) == ["FEATURES", [" x"], OrderedDict()]
+    assert _lines_match([""], []) and _lines_match(["a"], ["a"]) and not _lines_match(["a"], []) and not _lines_match([], ["a"])
+    # FASTQ comparison and the score-line observer
+    q = np.array([1, 2, 3])
+    assert fastq_items_equal([("a", ("ACG", np.array([1, 2, 3], dtype=np.int8)))], [("a", "ACG", q)])
+    assert not fastq_items_equal([("a", ("ACG", np.array([1, 2, 4])))], [("a", "ACG", q)])
+    assert not fastq_items_equal([("a", ("ACG", np.array([1.0, 2.0, 3.0])))], [("a", "ACG", q)])
+    assert not fastq_items_equal([("b", ("ACG", q))], [("a", "ACG", q)])
+    assert not fastq_items_equal([], [("a", "ACG", q)])
+
+    class _N:
+        def __init__(self):
+            self.n = {}
+
+        def note(self, k):
+            self.n[k] = self.n.get(k, 0) + 1
+    nn = _N()
+    assert count_special_score_lines(nn, "@id\nACGT\nAC\n+\n@III\n+I\n@next\nA\n+\nI\n")
+    assert nn.n == {"score_line_starts_with_at": 1, "score_line_starts_with_plus": 1}, nn.n
+    # score generator covers the printable range and nothing else
+    lo, hi = 200, 0
+    for _ in range(300):
+        given, ref, _k = gen_scores(rng, 40, 7, 33)
+        lo, hi = min(lo, int(ref.min()) + 33), max(hi, int(ref.max()) + 33)
+        assert np.array_equal(np.asarray(given).astype(np.int64), ref)
+    assert (lo, hi) == (33, 126), (lo, hi)
+    # gff expected view
+    e = (None, "s", "t", 1, 2, 3, "F", None, None)
+    assert gff_expected(e) == (".", "s", "t", 1, 2, 3.0, "F", None, {})
+
+
+# ------------------------------------------------------------------ probes (one mechanism each)
+def _gb_probe(ctx, feats, symbols="ACGTACGTACGTACGTACGTACGTACGTAC", start=1, fmt="gb"):
+    model = (feats, symbols, start)
+    ctx.log("genbank", fmt, symbols, start, [[k, sorted(map(lambda l: [l[0], l[1], l[2], sorted(l[3])], locs), key=repr), list(q)] for k, locs, q in feats])
+    f, _ = gb_write(model, fmt)
+    gb_check_roundtrip(ctx, model, fmt, str(f))
+
+
+def _probe_single_base_beyond_right(ctx):
+    """S16a: Location(p, p, defect=BEYOND_RIGHT) alone, complemented and inside a join."""
+    for locs in ([(5, 5, "F", frozenset({"BR"}))], [(7, 7, "R", frozenset({"BR"}))],
+                 [(2, 4, "F", frozenset()), (9, 9, "F", frozenset({"BR"}))]):
+        ctx.op("probe_single_base_beyond_right")
+        _gb_probe(ctx, [("gene", frozenset(locs), (("gene", "x"),))])
+
+
+def _probe_all_qualifiers_without_value(ctx):
+    """S16b: every qualifier of the feature is a flag (value None)."""
+    for qual in ((("pseudo", None),), (("pseudo", None), ("partial", None))):
+        ctx.op("probe_all_qualifiers_without_value")
+        _gb_probe(ctx, [("gene", frozenset({(1, 5, "F", frozenset())}), qual),
+                        ("CDS", frozenset({(7, 9, "F", frozenset())}), (("product", "p"),))])
+
+
+def _probe_empty_annotation(ctx):
+    ctx.op("probe_empty_annotation")
+    _gb_probe(ctx, [])
+
+
+def _probe_double_quote(ctx):
+    for v in ('say "hi" ok', '"', 'a"b'):
+        ctx.op("probe_qualifier_double_quote")
+        _gb_probe(ctx, [("gene", frozenset({(1, 5, "F", frozenset())}), (("note", v),))])
+
+
+def _probe_origin_9_digits(ctx):
+    for start, n in ((100_000_000, 5), (99_999_990, 130), (999_999_000, 61)):
+        ctx.op("probe_origin_9_digits")
+        _gb_probe(ctx, [("gene", frozenset({(start, start + 2, "F", frozenset())}), ())], symbols=("ACGTTGCA" * 20)[:n], start=start)
+
+
+def _probe_gb_index_below(ctx):
+    for bad in (-4, -5, -7):
+        for how in ("get", "set", "insert", "del"):
+            f = B.gb.GenBankFile()
+            model = []
+            for nm in ("LOCUS", "DEFINITION", "COMMENT"):
+                f.append(nm, [nm.lower() + " text"])
+                model.append(gb_model_field(nm, [nm.lower() + " text"], None))
+            ctx.log("bad_index", how, bad)
+            ctx.op("probe_gb_index_below_minus_len")
+            fn = {"get": lambda: f[bad], "set": lambda: f.__setitem__(bad, ("X", ["x"])),
+                  "insert": lambda: f.insert(bad, "X", ["x"]), "del": lambda: f.__delitem__(bad)}[how]
+            gb_reject(ctx, f, model, "%s with index %d" % (how, bad), fn)
+
+
+def _probe_gb_empty_line_list(ctx):
+    for name, content, sub in (("SOURCE", [], OrderedDict([("ORGANISM", ["Homo sapiens", "Eukaryota."])])),
+                               ("REFERENCE", ["1"], OrderedDict([("AUTHORS", []), ("TITLE", ["t"])])),
+                               ("COMMENT", [], None)):
+        f = B.gb.GenBankFile()
+        f.append("LOCUS", ["x"])
+        model = [gb_model_field("LOCUS", ["x"], None)]
+        ctx.log("append", name, content, None if sub is None else list(sub.items()))
+        ctx.op("probe_gb_empty_line_list")
+        f.append(name, content, sub)
+        model.append(gb_model_field(name, content, sub))
+        gb_check(ctx, f, model, "append with an empty line list")
+
+
+def _probe_header_blanks(ctx):
+    rng = np.random.default_rng(5)
+    for kind in ("fasta", "fastq"):
+        for h in (" a", "b ", "\tc d \t"):
+            hz = MapHarness(ctx, rng, kind)
+            f = hz.new_file()
+            v = hz.gen_value()
+            while kind == "fastq" and len(v[0]) == 0:
+                v = hz.gen_value()
+            ctx.log(kind, "set", h, hz.log_value(v))
+            ctx.op("probe_header_surrounding_blanks")
+            f[h] = hz.api_value(v)
+            hz.model[h.strip()] = v
+            hz.check(f, "set %r" % h)
+            f["other"] = hz.api_value(v)
+            hz.model["other"] = v
+            del f["other"]
+            del hz.model["other"]
+            hz.check(f, "set and delete of another entry")
+
+
+def _probe_fastq_empty(ctx):
+    rng = np.random.default_rng(6)
+    for cpl in (None, 10):
+        hz = MapHarness(ctx, rng, "fastq")
+        hz.cpl = cpl
+        f = hz.new_file()
+        f["first"] = ("ACGT", [1, 2, 3, 4])
+        hz.model["first"] = ("ACGT", [1, 2, 3, 4], np.array([1, 2, 3, 4]))
+        ctx.log("fastq", "set", "empty", "", [], cpl)
+        ctx.op("probe_fastq_empty_sequence")
+        done = hz.empty_declined(f, "empty", ("", [], np.zeros(0, dtype=np.int64)))
+        assert done
+        ctx.oracle("fastq_empty_declined_or_roundtrip")
+        try:
+            del f["first"]
+            del hz.model["first"]
+            hz.check(f, "delete after an empty entry")
+        except Exception as e:
+            if isinstance(e, AssertionError):
+                raise
+            ctx.fail("fastq_empty_declined_or_roundtrip", "after a zero-length entry: %s: %s" % (type(e).__name__, e))
+
+
+def _gff_probe(ctx, entries):
+    f = B.gff.GFFFile()
+    ctx.log("gff_entries", [log_entry(e) for e in entries])
+    for e in entries:
+        f.append(*gff_args(e))
+    expected = [gff_expected(e) for e in entries]
+    ctx.check(gff_view(f) == expected, "gff_entry_roundtrip", "entries of the filled GFFFile differ from what was appended",
+              got=_short(gff_view(f), 900), expected=_short(expected, 900), text=str(f)[:900])
+    g = B.gff.GFFFile.read(StringIO(str(f)))
+    ctx.check(gff_view(g) == expected, "gff_entry_roundtrip", "GFFFile.read(written text) entries differ from what was appended",
+              got=_short(gff_view(g), 900), expected=_short(expected, 900), text=str(f)[:900])
+
+
+def _probe_gff_type(ctx):
+    for t in ("a%41b", "match%25", "x%3Bx"):
+        ctx.op("probe_gff_type_percent_escape")
+        _gff_probe(ctx, [("chr1", "src", t, 1, 9, None, "F", None, OrderedDict([("ID", "x")]))])
+
+
+def _probe_gff_trailing_blank(ctx):
+    for attrs in (OrderedDict([("ID", "x"), ("Note", "hello ")]), OrderedDict([("Note", "  ")])):
+        ctx.op("probe_gff_last_attribute_trailing_blank")
+        _gff_probe(ctx, [("chr1", "src", "gene", 1, 9, None, "F", None, attrs)])
+
+
+def _probe_gff_hash(ctx):
+    for seqid in ("#chr1", "##x"):
+        ctx.op("probe_gff_seqid_leading_hash")
+        _gff_probe(ctx, [("chr0", "src", "gene", 1, 9, None, "F", None, None), (seqid, "src", "gene", 1, 9, None, "F", None, None)])
+
+
+def _probe_general_fastq(ctx):
+    for suffix, d in ((".fastq", OrderedDict([("read1", "ACGT"), ("read2", "GGA")])), (".fq", OrderedDict([("only", "ACGTN")]))):
+        p = _path(suffix)
+        ctx.log("save_sequences", suffix, list(d.items()))
+        ctx.op("probe_general_save_sequences_fastq")
+        ctx.oracle("general_roundtrip")
+        try:
+            B.sio.save_sequences(p, OrderedDict((h, B.Nuc(s)) for h, s in d.items()))
+            back = B.sio.load_sequences(p)
+        finally:
+            try:
+                os.remove(p)
+            except OSError:
+                pass
+        got = [(h, str(v)) for h, v in back.items()]
+        if got != list(d.items()):
+            ctx.fail("general_roundtrip", "load_sequences(save_sequences(%s)) = %s, saved %s" % (suffix, got, list(d.items())))
+
+
+PROBES = {
+    "gb_single_base_beyond_right": _probe_single_base_beyond_right,
+    "gb_all_qualifiers_without_value": _probe_all_qualifiers_without_value,
+    "gb_empty_annotation": _probe_empty_annotation,
+    "gb_qualifier_double_quote": _probe_double_quote,
+    "gb_origin_position_9_digits": _probe_origin_9_digits,
+    "gb_index_below_minus_len": _probe_gb_index_below,
+    "gb_empty_line_list": _probe_gb_empty_line_list,
+    "header_surrounding_blanks": _probe_header_blanks,
+    "fastq_empty_sequence": _probe_fastq_empty,
+    "gff_type_percent_escape": _probe_gff_type,
+    "gff_last_attribute_trailing_blank": _probe_gff_trailing_blank,
+    "gff_seqid_leading_hash": _probe_gff_hash,
+    "general_save_sequences_fastq": _probe_general_fastq,
+}
